@@ -711,7 +711,9 @@ def _check_corr(cfg):
     cols = ["v%d" % i for i in range(d)]
     draws, seed = cfg["draws"], cfg["np_seed"]
     res = {}
-    frame0 = pandas.DataFrame(X.copy(), columns=cols)
+    # integer tables are valid numeric tables too (counts): kept in an integer dtype when the config says so
+    frame0 = pandas.DataFrame(X.astype(numpy.int64) if cfg.get("int_dtype") and cfg.get("integers") else X.copy(),
+                              columns=cols)
     for kind in ("array", "frame"):
         # "a DataFrame and its array": the array is the frame's own `.values` (same numbers, same memory layout)
         data = frame0.values.copy(order="K") if kind == "array" else frame0.copy()
@@ -824,9 +826,11 @@ def _corr_configs(ctx, count):
         cfg = {"seed": rng.randrange(1 << 30), "np_seed": rng.randrange(1 << 30), "n": rng.randint(4, 60), "d": d,
                "draws": rng.choice([1, 1, 2, 3, 5]), "model": rng.choice(["linear", "linear", "tree", "identity", "constant",
                                                                            "sign"]),
-               "integers": rng.random() < 0.3,
-               "constant": [rng.randrange(d)] if (d >= 2 and rng.random() < 0.3) else [],
+               "integers": rng.random() < 0.3, "int_dtype": rng.random() < 0.5,
+               "constant": [],
                "collinear": [(0, d - 1)] if (d >= 2 and rng.random() < 0.3) else []}
+        if d >= 2 and rng.random() < 0.3 and not (cfg["integers"] and cfg["int_dtype"]):
+            cfg["constant"] = [rng.randrange(d)]        # the constant 2.5 is not an integer
         out.append(cfg)
     return out
 
